@@ -1,6 +1,7 @@
 """Shared anchors and helpers for the rules about the push decoder (C02, C08, C14, C16, C17)."""
 from ..engine import AnchorMissing, field_index
 from ..lin import Lin
+from ..vra.state import Infeasible
 from ..vra.interp import Unsupported
 from ..vra.values import *
 from ..vra.stdsum import split_enum
@@ -256,6 +257,8 @@ def frame_analysis(A, an):
             if st.ghost.get("fa-calc") is not None and "fa-flush-zc" not in st.ghost:
                 obj = st.mem[self_root(st)]
                 st.ghost["fa-flush-zc"] = obj.elems[an.i_zc].lin
+        if callee.get("trait") == "util::Buffer" and callee.get("method") == "clear":
+            st.ghost["fa-cleared-at"] = len(st.ghost.get("fa-pushed", ()))
         if callee.get("trait") == "util::Buffer" and callee.get("method") == "push":
             st.ghost["fa-bufpush"] = st.ghost.get("fa-bufpush", 0) + 1
             b = args[1]
@@ -354,13 +357,26 @@ def frame_analysis(A, an):
             st.ghost["dec-self"] = root
             st.ghost["dec-part"] = key
             st.ghost["fa-on"] = True
+            starts = [st]
             if key == an.v_payload:
-                st.ghost["dec-step0"] = obj0.elems[an.i_state].pay[an.v_payload][an.i_step].lin
-            for (s1, rv, args) in A.run_fn(push, st0=st, first_arg=VRef(root, (), True)):
+                step = obj0.elems[an.i_state].pay[an.v_payload][an.i_step].lin
+                st.ghost["dec-step0"] = step
+                # one run per value of the escape-payload index: the store payload[step] = b is then exact
+                lo, hi = st.interval(step)
+                if lo is not None and hi is not None and 0 < hi - lo <= 16:
+                    starts = []
+                    for k in range(lo, hi + 1):
+                        sk = st.copy()
+                        try:
+                            sk.assume_eq0(step - k)
+                        except Infeasible:
+                            continue
+                        starts.append(sk)
+            for (s1, rv, args) in [r for s_ in starts for r in A.run_fn(push, st0=s_, first_arg=VRef(root, (), True))]:
                 for s2, label in classify_push(ip, s1, rv, an):
                     outs.append({"key": key, "label": label, "st": s2, "obj0": obj0, "obj": s2.mem[root], "root": root, "ret": rv,
                                  "args": args, "dfed": s2.ghost.get("fa-dfed", Lin.const(0)), "feeds": s2.ghost.get("fa-feeds", ()),
-                                 "bufpush": s2.ghost.get("fa-bufpush", 0), "pushed": s2.ghost.get("fa-pushed", ()),
+                                 "bufpush": s2.ghost.get("fa-bufpush", 0), "pushed": s2.ghost.get("fa-pushed", ()), "cleared_at": s2.ghost.get("fa-cleared-at"),
                                  "write_failed": s2.ghost.get("buf-write-failed", 0)})
     finally:
         ip.join_threshold = old_thr
